@@ -25,10 +25,12 @@ type accRec struct {
 	Site   string
 }
 
-func (st *State) heldLocks() string {
+// heldLocks: the mutexes that protect an access of the given kind: a mutex held in read mode (RLock) protects reads
+// against writers but does not protect a write.
+func (st *State) heldLocks(write bool) string {
 	var ks []int
 	for k, v := range st.Mutex {
-		if v {
+		if v && !(write && st.RLocked[k]) {
 			ks = append(ks, k)
 		}
 	}
@@ -90,7 +92,7 @@ func (in *Interp) access(st *State, fr *Frame, ins ssa.Instruction, obj int, pat
 	if len(path) > 0 && path[0].Idx == nil {
 		key.Field = path[0].Field
 	}
-	locks := st.heldLocks()
+	locks := st.heldLocks(write)
 	site := in.posOf(ins, fr)
 	for _, r := range st.Acc[key] {
 		if r.Thread != st.Thread && (r.Write || write) && locksDisjoint(r.Locks, locks) {
